@@ -69,11 +69,12 @@ def number_groups(ast):
 
 
 class Matcher:
-    def __init__(self, ast, line, icase=False, notbol=False, noteol=False, budget=60000):
+    def __init__(self, ast, line, icase=False, notbol=False, noteol=False, budget=60000, wordbef=False):
         self.ast, self.ngroups = number_groups(ast)
         self.s = [ord(c) for c in line]
         self.n = len(self.s)
         self.icase, self.notbol, self.noteol = icase, notbol, noteol
+        self.wordbef = wordbef      # a word character precedes the string (RE_WORDBEF)
         self.budget = budget
         self.steps = 0
         self.emptyloop = False
@@ -144,10 +145,10 @@ class Matcher:
                 ok = s[i] == 10
             return k(i, caps) if ok else None
         if t == 'wbeg':
-            ok = (i == 0 or not isword(s[i - 1])) and i < n and isword(s[i])
+            ok = ((not self.wordbef) if i == 0 else not isword(s[i - 1])) and i < n and isword(s[i])
             return k(i, caps) if ok else None
         if t == 'wend':
-            ok = i != 0 and isword(s[i - 1]) and (i == n or not isword(s[i]))
+            ok = (self.wordbef if i == 0 else isword(s[i - 1])) and (i == n or not isword(s[i]))
             return k(i, caps) if ok else None
         if t == 'grp':
             g = node[2]
